@@ -85,6 +85,9 @@ func main() {
 
 	t0 := time.Now()
 	keyOrderCheck(res, f.Driver)
+	upperBoundCheck(res, f.Driver, f.Seed)
+	keyRangeProbe(res, false)
+	keyRangeProbe(res, true)
 	raceProbe(res, false)
 	raceProbe(res, true)
 	readErrorProbe(res, false)
@@ -122,6 +125,11 @@ func main() {
 			sc.cfg.Reopen = true
 		case f.Thorough() && i%4 == 3:
 			sc.cfg.Pebble = true
+		}
+		if i%3 == 2 && !sc.cfg.AllowDrain {
+			// the byte-boundary universe: addresses and slots ending in 0xff next to their upper neighbours
+			sc.cfg.Univ = "ff"
+			sc.cfg.Name = fmt.Sprintf("random-ff-%d", i)
 		}
 		scs = append(scs, sc)
 	}
